@@ -100,6 +100,14 @@ Proof.
 Qed.
 Print Assumptions C12_release_empties.
 
+(* ... whatever the state of the to-driver ring: a refused REMOVE_SUBSCRIPTION command is ignored, every image of the
+   released subscription is closed and reported (the statement has no hypothesis on `ringfull s`) *)
+Theorem C12_release_reports_all : forall s now reg o, find_sub reg (subs s) = Some o -> so_inmap o = true ->
+  cblog (drop_sub s now reg) = cblog s ++ unavail_cbs reg (so_imgs o) /\
+  closed_oids (drop_sub s now reg) = closed_oids s ++ map i_oid (so_imgs o).
+Proof. intros s now reg o Hf Hi. unfold drop_sub. rewrite Hf, Hi. split; reflexivity. Qed.
+Print Assumptions C12_release_reports_all.
+
 Theorem C12_close_empties : forall s now o, Inv s -> cclosed s = false -> In o (subs (close_client s now)) -> so_imgs o = [] /\ so_inmap o = false.
 Proof.
   intros s now o HI Hc Ho. pose proof (Inv_close s now HI) as (_ & _ & C & _). split; [apply C; [assumption|]|];
@@ -163,6 +171,21 @@ Example C12_ex_small_clock :
   = [OStep (Ok 1) [] [(1, [])] [] []; OStep (Ok 0) [(1, 1, 1000, 0)] [(1, [(1000, 0)])] [0] [];
      OStep (Ok 0) [(2, 1, 1000, 1)] [(1, [])] [0] []; OStep (Ok 0) [] [(1, [])] [0] []; OStep (Ok 0) [] [(1, [])] [0] [];
      OStep (Ok 0) [] [(1, [])] [0] []].
+Proof. vm_compute. reflexivity. Qed.
+
+(* a stalled driver: adds are refused, the subscription dropped meanwhile still has both images reported; the publication
+   dropped meanwhile keeps its state entry (release_publication propagates the refused command before forgetting it),
+   so file 2 stays mapped until the client is closed *)
+Example C12_ex_ring_full :
+  run Debug 5000 (init 100000 0)
+    [Subscribe 100000; Publish 100000 (-1) 2; Avail 100100 1000 1 0; Avail 100100 1001 1 1; Stall; Subscribe 100200;
+     DropPub 100300 2; DropSub 100400 1; Drain; Subscribe 100500; Tick 113000; Tick 119000; Tick 125000; CloseClient 125000; Tick 127000; Tick 133000]
+  = [OStep (Ok 1) [] [(1, [])] [] []; OStep (Ok 2) [] [(1, [])] [2] []; OStep (Ok 0) [(1, 1, 1000, 0)] [(1, [(1000, 0)])] [0; 2] [];
+     OStep (Ok 0) [(1, 1, 1001, 0)] [(1, [(1000, 0); (1001, 0)])] [0; 1; 2] []; OStep (Ok 0) [] [(1, [(1000, 0); (1001, 0)])] [0; 1; 2] [];
+     OStep (Err IllegalState) [] [(1, [(1000, 0); (1001, 0)])] [0; 1; 2] []; OStep (Ok 0) [] [(1, [(1000, 0); (1001, 0)])] [0; 1; 2] [];
+     OStep (Ok 0) [(2, 1, 1000, 1); (2, 1, 1001, 1)] [] [0; 1; 2] []; OStep (Ok 0) [] [] [0; 1; 2] []; OStep (Ok 6) [] [(6, [])] [0; 1; 2] [];
+     OStep (Ok 0) [] [(6, [])] [0; 1; 2] []; OStep (Ok 0) [] [(6, [])] [0; 1; 2] []; OStep (Ok 0) [] [(6, [])] [2] [];
+     OStep (Ok 0) [] [(6, [])] [2] []; OStep (Ok 0) [] [(6, [])] [2] []; OStep (Ok 0) [] [(6, [])] [] []].
 Proof. vm_compute. reflexivity. Qed.
 
 (* the hypotheses of C12_linger / C12_linger_release are met by concrete states, and the monitor rejects a wrong trace *)
